@@ -11,7 +11,9 @@
 (*   register            Observe() called: the request is written           *)
 (*   first(kind,seq,t)   the answer to the registration: "ok" (2.05 with    *)
 (*                       Observe), "noobs" (2.05 without: the resource is   *)
-(*                       not observable), "err" (any other code)            *)
+(*                       not observable), "err" (an error code), "err2xx" (a  *)
+(*                       success-class code that is neither 2.05 nor 2.03,  *)
+(*                       e.g. 2.04, even with an Observe option): like err   *)
 (*   giveup              the caller's context ends while the registration   *)
 (*                       waits for its first answer (datagram: after the    *)
 (*                       request was acknowledged): Observe() fails         *)
